@@ -15,6 +15,10 @@ content: the filters are registered with the real add_filter; the content is wri
                   host-cmd   (simple_command under a HostContext: `cat file | grep -F`),
                   host-write (ContentProvider.write with the real Cleaner: grep, then the cleaner's allow-list),
                   archive    (simple_file under a HostArchiveContext: AllowFilter.filter_content),
+                  archive-glob / host-glob  (glob_file, a multi-output spec: one event per file of the list),
+                  serialized-file / serialized-glob  (a single-result and a multi-output spec stored with
+                             Hydration.dehydrate and loaded back with Hydration.hydrate, filters registered
+                             before or after the archive was written, by seed),
                   cleaner    (Cleaner.clean_content with the allow-list),
                   helper     (insights.core.filters.apply_filters).
 R7: every external process is started through subprocess with stdin closed and a timeout (the code under test
@@ -33,9 +37,10 @@ import types
 os.environ.pop("INSIGHTS_FILTERS_ENABLED", None)
 
 from insights.core import dr, filters                                       # noqa: E402
-from insights.core.context import HostArchiveContext, HostContext           # noqa: E402
+from insights.core.context import HostArchiveContext, HostContext, SerializedArchiveContext    # noqa: E402
 from insights.core.plugins import combiner, datasource, parser              # noqa: E402
-from insights.core.spec_factory import (RegistryPoint, SpecSet, first_of, simple_command,    # noqa: E402
+from insights.core.serde import Hydration                                   # noqa: E402
+from insights.core.spec_factory import (RegistryPoint, SpecSet, first_of, glob_file, simple_command,    # noqa: E402
                                         simple_file)
 
 OTHER = 99
@@ -308,6 +313,7 @@ class ContentBench(object):
         self.n = 0
         self.grep_runs = 0
         self.grep_checked = 0
+        self.hydrated = 0
 
     def run(self, case, paths, grep_check):
         self.n += 1
@@ -351,7 +357,41 @@ class ContentBench(object):
         q = parser(base.pt)(qcls)
         created = [base.pt, base.cmd, hostf, hostc, arch, q]
         events = []
+        multi = "serialized" in paths
+        if multi:
+            # a multi-output spec: two files, the case's lines and the same line classes bottom-up
+            caseB = {"lines": list(reversed(case["lines"]))}
+            textsB = build_lines(caseB, strings, rng)
+            files = {"var/log/multi/a.log": (texts, lines_abs),
+                     "var/log/multi/b.log": (textsB, abstract_lines(textsB, strings))}
+            os.makedirs(os.path.join(root, "var", "log", "multi"))
+            for frel, (tx, _) in files.items():
+                with open(os.path.join(root, frel), "w", encoding="utf-8") as f:
+                    f.write("".join(t + "\n" for t in tx))
+            sbase = type("CSBase%d" % u, (SpecSet,), {"one": RegistryPoint(filterable=True),
+                                                      "many": RegistryPoint(multi_output=True, filterable=True)})
+            sone = simple_file(rel, context=HostArchiveContext)
+            smany = glob_file("var/log/multi/*.log", context=HostArchiveContext)
+            hmany = glob_file("/var/log/multi/*.log", context=HostContext)
+            type("CSArch%d" % u, (sbase,), {"one": sone, "many": smany})
+            type("CSHost%d" % u, (sbase,), {"many": hmany})
+            sq = parser(sbase.many)(type("CSQ_%d" % u, (object,), {"__init__": lambda self, *a: None,
+                                                                   "__module__": "verif_generated"}))
+            created += [sbase.one, sbase.many, sone, smany, hmany, sq]
+            sroot = os.path.join(root, "serialized")
+            store_first = rng.random() < 0.65     # the archive was written before the filters were registered
+
+            def store():
+                b = dr.Broker()
+                b[HostArchiveContext] = HostArchiveContext(root=root)
+                dr.run(dr.get_dependency_graph(sone), broker=b)
+                dr.run(dr.get_dependency_graph(smany), broker=b)
+                h = Hydration(sroot)
+                for comp in (sone, smany):
+                    h.dehydrate(comp, b)
         try:
+            if multi and store_first:
+                store()
             # registration: on the spec, through a parser, or on the implementations (by VERIF_SEED)
             how = rng.randint(0, 1 if "tests-inputdata" in paths else 2)
             for s, b in allow.items():
@@ -364,12 +404,37 @@ class ContentBench(object):
                     filters.add_filter(hostf, s, **kw)
                     filters.add_filter(arch, s, **kw)
                 filters.add_filter(base.cmd, s, **kw)
+                if multi:
+                    if how == 0:
+                        filters.add_filter(sbase.one, s, **kw)
+                        filters.add_filter(sbase.many, s, **kw)
+                    elif how == 1:
+                        filters.add_filter(sbase.one, s, **kw)
+                        filters.add_filter(sq, s, **kw)
+                    else:
+                        for comp in (sone, smany, hmany):
+                            filters.add_filter(comp, s, **kw)
             allow_abs = list(case["allow"])
+            if multi and not store_first:
+                store()
 
-            def event(path, collected, out, note=""):
-                events.append({"ev": "content", "path": path, "lines": lines_abs, "allow": allow_abs,
-                               "collected": bool(collected), "out": index_out(out, texts) if collected else [],
+            def event(path, collected, out, note="", tx=texts, la=lines_abs):
+                events.append({"ev": "content", "path": path, "lines": la, "allow": allow_abs,
+                               "collected": bool(collected), "out": index_out(out, tx) if collected else [],
                                "feat": feat, "note": note})
+
+            def file_events(path, provs, note):
+                """one event per file of a multi-output spec"""
+                byrel = dict((p.relative_path.lstrip("/"), p) for p in (provs or []))
+                for frel, (tx, la) in sorted(files.items()):
+                    pr = byrel.get(frel)
+                    if pr is None:
+                        event(path, False, [], note or "no-provider", tx, la)
+                        continue
+                    try:
+                        event(path, True, list(pr.content), note, tx, la)
+                    except Exception as ex:
+                        event(path, False, [], type(ex).__name__, tx, la)
 
             def provider_content(point, broker):
                 if point not in broker:
@@ -415,6 +480,34 @@ class ContentBench(object):
                 broker[HostArchiveContext] = HostArchiveContext(root=root)
                 dr.run(dr.get_dependency_graph(q), broker=broker)
                 event("archive", *provider_content(base.pt, broker))
+            if multi:
+                note = "stored-before-registration" if store_first else "stored-after-registration"
+                ctx = SerializedArchiveContext(root=sroot) if rng.random() < 0.5 else None
+                loaded = Hydration(sroot, ctx=ctx).hydrate()
+                pr = loaded.get(sone)
+                if pr is None:
+                    event("serialized-file", False, [], note + ",no-provider")
+                else:
+                    try:
+                        event("serialized-file", True, list(pr.content), note)
+                    except Exception as ex:
+                        event("serialized-file", False, [], note + "," + type(ex).__name__)
+                lst = loaded.get(smany)
+                file_events("serialized-glob", lst if isinstance(lst, list) else None, note)
+                self.hydrated += len(lst) if isinstance(lst, list) else 0
+                broker = dr.Broker()
+                broker[HostArchiveContext] = HostArchiveContext(root=root)
+                dr.run(dr.get_dependency_graph(sq), broker=broker)
+                lst = broker.get(sbase.many)
+                file_events("archive-glob", lst if isinstance(lst, list) else None, "")
+                if any(p.startswith("host") for p in paths) and self.n % 3 == 0:
+                    broker = dr.Broker()
+                    broker[HostContext] = RecHostContext(root=root, timeout=120)
+                    broker["cleaner"] = self.cleaner
+                    dr.run(dr.get_dependency_graph(hmany), broker=broker)
+                    lst = broker.get(hmany)
+                    excs = ",".join(sorted(set(type(e).__name__ for l2 in broker.exceptions.values() for e in l2)))
+                    file_events("host-glob", lst if isinstance(lst, list) else None, excs)
             if "cleaner" in paths:
                 al = filters.get_filters(hostf, True)
                 out = self.cleaner.clean_content(list(texts), allowlist=al)
@@ -428,8 +521,10 @@ class ContentBench(object):
                 event("tests-inputdata", True, list(d.data[base.pt].content))
                 if how != 2:
                     event("tests-context-wrap", True, list(context_wrap(list(texts), filtered_spec=base.pt).content))
-            return {"id": case["id"], "kind": "content", "events": events,
-                    "concrete": {"filters": allow, "lines": texts}}
+            conc = {"filters": allow, "lines": texts}
+            if multi:
+                conc["files"] = dict((k, v[0]) for k, v in files.items())     # "-glob" events: one per file
+            return {"id": case["id"], "kind": "content", "events": events, "concrete": conc}
         finally:
             cleanup(created)
             shutil.rmtree(root, True)
@@ -455,7 +550,8 @@ def main():
             paths = inp["paths"]
             for i, case in enumerate(inp["cases"]):
                 traces.append(bench.run(case, paths, bool(every) and i % every == 0))
-            stats = {"contents": len(traces), "grep_runs": bench.grep_runs, "grep_checked": bench.grep_checked}
+            stats = {"contents": len(traces), "grep_runs": bench.grep_runs, "grep_checked": bench.grep_checked,
+                     "hydrated": bench.hydrated}
             if inp["mode"] == "content-tests":
                 import insights.tests
                 stats["add_filter_patched"] = filters.add_filter is not filters._add_filter
